@@ -38,6 +38,8 @@ import (
 
 type scenario struct {
 	Name string
+	// Scale multiplies the tier's base operation count (cheap operations get more of them)
+	Scale int
 	// Scope: prefixes of the table's field names this scenario exercises (tie table-vs-detector)
 	Scope []string
 	Run   func(w *wl)
@@ -56,6 +58,12 @@ func (w *wl) par(f func(id int, rng *rand.Rand)) {
 		wg.Add(1)
 		go func(i int) {
 			defer wg.Done()
+			// a panic of the code under test (e.g. a model's "shouldn't happen") ends this worker, not the scenario
+			defer func() {
+				if r := recover(); r != nil {
+					panics.Add(1)
+				}
+			}()
 			f(i, rand.New(rand.NewSource(w.seed*1000+int64(i))))
 		}(i)
 	}
@@ -69,6 +77,7 @@ func (w *wl) par(f func(id int, rng *rand.Rand)) {
 }
 
 var sink atomic.Int64
+var panics atomic.Int64
 
 func use(n int) { sink.Add(int64(n)) }
 
@@ -107,19 +116,19 @@ func drain[T any](ctx context.Context, ch <-chan T, max int, read func(T)) {
 }
 
 var scenarios = []scenario{
-	{"value", []string{"resource.Value.", "resource.config.", "minibus."}, wlValue},
-	{"collection", []string{"resource.Collection.", "resource.config.idInterceptor", "resource.config.clock", "resource.config.equivalence", "minibus."}, wlCollection},
-	{"collection-genid", []string{"resource.Collection.", "resource.config."}, wlGenID},
-	{"bus", []string{"minibus."}, wlBus},
-	{"router", []string{"router."}, wlRouter},
-	{"wrap-unary", []string{"wrap."}, wlWrapUnary},
-	{"wrap-stream", []string{"wrap."}, wlWrapStream},
-	{"stream-bidi", []string{"wrap."}, wlStreamBidi},
-	{"group", []string{}, wlGroup},
-	{"electric", []string{"electricpb.", "resource.Collection.", "resource.Value."}, wlElectric},
-	{"parent", []string{"parentpb.", "resource.Collection."}, wlParent},
-	{"metadata", []string{"metadatapb.", "resource.Value."}, wlMetadata},
-	{"waste-hail", []string{"wastepb.", "hailpb."}, wlWasteHail},
+	{"value", 2, []string{"resource.Value.", "resource.config.", "minibus."}, wlValue},
+	{"collection", 2, []string{"resource.Collection.", "resource.config.idInterceptor", "resource.config.clock", "resource.config.equivalence", "minibus."}, wlCollection},
+	{"collection-genid", 3, []string{"resource.Collection.", "resource.config."}, wlGenID},
+	{"bus", 2, []string{"minibus."}, wlBus},
+	{"router", 20, []string{"router."}, wlRouter},
+	{"wrap-unary", 2, []string{"wrap.", "resource.Value.", "minibus."}, wlWrapUnary},
+	{"wrap-stream", 1, []string{"wrap.", "resource.Value.", "minibus."}, wlWrapStream},
+	{"stream-bidi", 4, []string{"wrap."}, wlStreamBidi},
+	{"group", 3, []string{"resource.Value.", "minibus."}, wlGroup},
+	{"electric", 2, []string{"electricpb.", "resource.", "minibus."}, wlElectric},
+	{"parent", 1, []string{"parentpb.", "resource.", "minibus."}, wlParent},
+	{"metadata", 1, []string{"metadatapb.", "resource.", "minibus."}, wlMetadata},
+	{"waste-hail", 2, []string{"wastepb.", "hailpb.", "resource.", "minibus."}, wlWasteHail},
 }
 
 // ---- resource.Value ---------------------------------------------------------------------------
@@ -153,7 +162,11 @@ func wlValue(w *wl) {
 				_ = v.Clock().Now()
 			case 5:
 				ctx, cancel := context.WithTimeout(context.Background(), time.Duration(rng.Intn(5)+1)*time.Millisecond)
-				ch := v.Pull(ctx, resource.WithBackpressure(rng.Intn(2) == 0), resource.WithUpdatesOnly(rng.Intn(2) == 0))
+				popts := []resource.ReadOption{resource.WithBackpressure(rng.Intn(2) == 0), resource.WithUpdatesOnly(rng.Intn(2) == 0)}
+				if rng.Intn(2) == 0 {
+					popts = append(popts, resource.WithReadMask(&fieldmaskpb.FieldMask{Paths: []string{"name"}}))
+				}
+				ch := v.Pull(ctx, popts...)
 				drain(ctx, ch, 20, func(c *resource.ValueChange) { readMsg(c.Value); _ = c.ChangeTime })
 				cancel()
 			}
@@ -191,8 +204,12 @@ func wlCollection(w *wl) {
 				}
 			case 6:
 				ctx, cancel := context.WithTimeout(context.Background(), time.Duration(rng.Intn(5)+1)*time.Millisecond)
-				ch := c.Pull(ctx, resource.WithBackpressure(rng.Intn(2) == 0), resource.WithUpdatesOnly(rng.Intn(2) == 0),
-					resource.WithInclude(func(id string, item proto.Message) bool { readMsg(item); return len(id) > 0 }))
+				popts := []resource.ReadOption{resource.WithBackpressure(rng.Intn(2) == 0), resource.WithUpdatesOnly(rng.Intn(2) == 0),
+					resource.WithInclude(func(id string, item proto.Message) bool { readMsg(item); return len(id) > 0 })}
+				if rng.Intn(2) == 0 {
+					popts = append(popts, resource.WithReadMask(&fieldmaskpb.FieldMask{Paths: []string{"name"}}))
+				}
+				ch := c.Pull(ctx, popts...)
 				drain(ctx, ch, 20, func(c *resource.CollectionChange) { readMsg(c.OldValue); readMsg(c.NewValue) })
 				cancel()
 			case 7:
